@@ -146,7 +146,7 @@ def main():
             "guard": "--cfg callbag_verif",
             "enable": "RUSTFLAGS='--cfg callbag_verif' cargo build --offline (harness variant 'hooked', lib/build.sh harness hooked)",
             "baseline_off_cmd": "cd /repo && cargo nextest run --workspace --no-fail-fast --tool-config-file pb:/w/lib/nextest.toml --profile pb --test-threads 8 --offline || cargo test --workspace --no-fail-fast --offline",
-            "source_commits": ["c402756", "b6ef510", "ce68e41"],
+            "source_commits": ["c402756", "b6ef510", "ce68e41", "b7e9997"],
             "add_only": True,
         },
         "engines": [{
@@ -157,7 +157,7 @@ def main():
         }],
         "checks": checks,
         "not_applicable": na,
-        "notes": "Known findings: /verif/known_findings.json. fix: commits in /repo: ef0bdaa, a78b8de, 56aafc9, a25d8e2, eae2b4b (see DESIGN.md section 6).",
+        "notes": "Known findings: /verif/known_findings.json. fix: commits in /repo: ef0bdaa, a78b8de, 56aafc9, a25d8e2, eae2b4b, 13d4e7e (see DESIGN.md section 6).",
     }
     json.dump(man, open("/verif/MANIFEST.json", "w"), indent=1)
     print("wrote MANIFEST.json with", len(checks), "checks")
